@@ -202,17 +202,13 @@ def has_dup_array(d) -> bool:
     return False
 
 
-def has_pyeq_confusion(d) -> bool:
-    """an array holding items equal for Python but distinct for JSON (True / 1, False / 0): the
-    uniqueness of such arrays is outside the common domain only for sets (already excluded)"""
+def has_bigint(d) -> bool:
+    if isinstance(d, int) and not isinstance(d, bool):
+        return abs(d) > 2**53
     if isinstance(d, list):
-        try:
-            py = len(set(map(M._hashable, d))) != len(d)
-        except TypeError:
-            py = False
-        return (py and not has_dup_array(d)) or any(has_pyeq_confusion(x) for x in d)
+        return any(has_bigint(x) for x in d)
     if isinstance(d, dict):
-        return any(has_pyeq_confusion(x) for x in d.values())
+        return any(has_bigint(x) for x in d.values())
     return False
 
 
